@@ -28,6 +28,8 @@ DOCUMENTED = [
     ("AssertionError", "initialize/compute_crop_calendar.py:compute_crop_calendar", "longer than 1 year"),
     ("AssertionError", "timestep/reset_initial_conditions.py:reset_initial_conditions", "not enough growing degree days"),
     ("AssertionError", "timestep/reset_initial_conditions.py:reset_initial_conditions", "longer than 1 year"),
+    # the same "too few growing degree days to mature" rejection, raised by the calendar-to-thermal-time conversion (SwitchGDD=1)
+    ("AssertionError", "utils/prepare_gdd.py:prepare_gdd", "not enough growing degree days"),
 ]
 
 
